@@ -728,11 +728,9 @@ const W_TYS: &[Ty] = &[
 ];
 
 fn generate_single(r: &mut Rng, tier: Tier) -> C16 {
-    let big = r.chance(1, if tier == Tier::Thorough { 40 } else { 400 });
-    let max_frames = if tier == Tier::Thorough && r.chance(1, 4) { 20 } else { 8 };
-    let marathon = !big && r.chance(1, 150);
-    let nitems = if big { r.range(1, 2) } else if marathon { r.range(257, 600) } else { 1 + r.below(max_frames) } as usize;
-    let profile = if marathon { 0 } else { r.below(4) };
+    let shape = gen_shape(r, tier == Tier::Thorough);
+    let big = shape.big;
+    let nitems = shape.nframes;
     let mixed = r.chance(1, 2);
     let ty0 = *r.pick(W_TYS);
     let en_reject = r.chance(1, 3);
@@ -741,16 +739,17 @@ fn generate_single(r: &mut Rng, tier: Tier) -> C16 {
         let kind = if en_reject && r.chance(1, 5) {
             ItemKind::Fail(if r.chance(1, 2) { 0 } else { r.range(1, 300) as u32 })
         } else {
-            let size = match profile {
-                0 => r.below(4) as u32,
-                1 => r.below(30) as u32,
-                _ => gen_size(r, big),
-            };
+            let size = shape.size(r, items.len());
+            if big && items.is_empty() {
+                items.push(Item { kind: ItemKind::Val(ValSpec { ty: *r.pick(BYTEY_TYS), size, seed: r.next_u64() }), sync_before: false, flush_after: r.chance(1, 10) });
+                continue;
+            }
             ItemKind::Val(ValSpec { ty: if mixed { *r.pick(W_TYS) } else { ty0 }, size, seed: r.next_u64() })
         };
         items.push(Item { kind, sync_before: r.chance(1, 6), flush_after: r.chance(1, 10) });
     }
     let len = total_len(&items);
+    let largest = items.iter().map(|i| match &i.kind { ItemKind::Val(v) => reference_encoding(v).map(|p| p.len() + 4).unwrap_or(0), _ => 0 }).max().unwrap_or(0);
     let en_short = r.chance(3, 4);
     let en_pending = r.chance(3, 4);
     let en_err = r.chance(1, 2);
@@ -772,7 +771,7 @@ fn generate_single(r: &mut Rng, tier: Tier) -> C16 {
                 _ => Step::Xfer(1),
             }
         } else if en_short {
-            Step::Xfer(1 + r.below(gran as u64) as u32)
+            Step::Xfer(shape.xfer(r, gran, largest))
         } else {
             Step::Xfer(u32::MAX)
         };
@@ -794,7 +793,7 @@ fn generate_single(r: &mut Rng, tier: Tier) -> C16 {
     C16 {
         items,
         max_len_mode: if r.chance(1, 3) { 1 + r.below(3) as u8 } else { 0 },
-        init_buf: if r.chance(1, 3) { r.range(1, 300) as u32 } else { 0 },
+        init_buf: if let Some(n) = shape.roomy_init { n } else if r.chance(1, 3) { r.range(1, 300) as u32 } else { 0 },
         use_ctx: r.chance(1, 8),
         knob_at: if r.chance(1, 4) { r.below(nitems as u64) as u32 } else { 0 },
         rewrap_at: if r.chance(1, 6) { Some(r.below(nitems as u64) as u32) } else { None },
